@@ -1,1 +1,1066 @@
-"""(rules to be added)"""
+"""Engine STORE - discipline of the block store (DESIGN 5.3).
+
+An edge u->v is stored in up to five places (u._jump_targets, u.backedges,
+u.branch_value_table, the _jump_targets of every region whose exiting block is
+u, and header/exiting/parent pointers).  These rules check that every writer
+keeps the copies in step."""
+from __future__ import annotations
+
+import ast
+from typing import Dict, List, Optional, Set, Tuple
+
+from .. import astutil as A
+from ..model import AnalysisError, FunctionInfo
+from ..report import Ob, bad, ok, unresolved
+from ..types import members, strip_none
+from . import rule
+from .common import block_classes, constructor_sites, kw, method_calls, prog_is_sub
+
+STRUCTURAL_TUPLE_FIELDS = {"_jump_targets", "backedges", "branch_value_table"}
+POINTER_FIELDS = {"header", "exiting", "region", "parent_region"}
+RETARGET = ("replace_jump_targets", "replace_backedges", "declare_backedge")
+LIST_MUTATORS = {"pop", "remove", "append", "insert", "extend", "sort", "reverse", "clear"}
+
+
+def _owner_modules(ctx):
+    return (ctx.prog.module("scfg"), ctx.prog.module("transformations"))
+
+
+def _core_functions(ctx) -> List[FunctionInfo]:
+    """functions of scfg.py (SCFG class and module level, not the reader/writer) and transformations.py"""
+    scfg_m, tr_m = _owner_modules(ctx)
+    out = []
+    for f in ctx.prog.functions:
+        if f.module is tr_m:
+            out.append(f)
+        elif f.module is scfg_m:
+            top = f.qualname.split(".")[0]
+            if top not in ("SCFGIO", "NameGenerator", "AbstractGraphView", "ConcealedRegionView"):
+                out.append(f)
+    return out
+
+
+# ------------------------------------------------------------------ STORE-1
+
+
+@rule("STORE-1", 6, "frozen blocks are written only through the block API: no replace()/__setattr__ of payload fields anywhere, none of edge fields outside basic_block.py")
+def store1(ctx) -> List[Ob]:
+    out: List[Ob] = []
+    prog = ctx.prog
+    bbmod = prog.module("basic_block")
+    block_names_ = {c.name for c in block_classes(prog)}
+    all_fields = set()
+    for c in block_classes(prog):
+        all_fields |= {f.name for f in c.fields()}
+    for fn in prog.functions:
+        for c in A.walk_no_nested(fn.node):
+            if not isinstance(c, ast.Call):
+                continue
+            d = A.dotted(c.func) or ""
+            last = d.split(".")[-1]
+            fields: List[str] = []
+            target = None
+            if last == "replace" and (d in ("replace", "dataclasses.replace")) and c.args:
+                tt = ctx.type_of(fn, c.args[0])
+                if not any(m[0] == "cls" and m[1] in block_names_ for m in members(strip_none(tt))):
+                    continue
+                fields = [k.arg for k in c.keywords if k.arg]
+                target = c.args[0]
+            elif d in ("object.__setattr__", "setattr") and len(c.args) == 3:
+                if isinstance(c.args[1], ast.Constant) and isinstance(c.args[1].value, str):
+                    fields = [c.args[1].value]
+                else:
+                    out.append(unresolved("STORE-1", fn.qualname, A.alpha_key(c), ctx.where(fn, c), "setattr with a computed attribute name"))
+                    continue
+                target = c.args[0]
+            else:
+                continue
+            key = A.alpha_key(c)
+            where = ctx.where(fn, c)
+            in_api = fn.module is bbmod and fn.cls is not None and fn.cls.name in block_names_
+            for f in fields:
+                if f in STRUCTURAL_TUPLE_FIELDS:
+                    if in_api:
+                        out.append(ok("STORE-1", fn.qualname, key, where, f"edge field '{f}' written inside the block API"))
+                    else:
+                        out.append(bad("STORE-1", fn.qualname, key, where, f"edge field '{f}' of a frozen block is written outside the block API (basic_block.py): bypasses table maintenance and the replace_* contract"))
+                elif f in POINTER_FIELDS:
+                    if in_api or fn.module in _owner_modules(ctx):
+                        out.append(ok("STORE-1", fn.qualname, key, where, f"hierarchy pointer '{f}' written by the module that owns the hierarchy"))
+                    else:
+                        out.append(bad("STORE-1", fn.qualname, key, where, f"hierarchy pointer '{f}' written outside scfg.py / transformations.py / the block API"))
+                elif f in all_fields:
+                    out.append(bad("STORE-1", fn.qualname, key, where, f"payload / identity field '{f}' of a block is overwritten: original blocks must keep their payload untouched"))
+                else:
+                    out.append(ok("STORE-1", fn.qualname, key, where, f"'{f}' is not a block field", nontrivial=False))
+    return out
+
+
+# ------------------------------------------------------------------ STORE-2
+
+
+@rule("STORE-2", 8, "restructuring code constructs only synthetic blocks and regions, never a payload-carrying block")
+def store2(ctx) -> List[Ob]:
+    out: List[Ob] = []
+    prog = ctx.prog
+    is_sub = prog_is_sub(prog)
+    core = set(_core_functions(ctx))
+    for fn, node, cls, via in constructor_sites(prog, ctx.typer, block_classes(prog)):
+        if fn not in core:
+            continue
+        key = A.alpha_key(node.func) + "(...)"
+        where = ctx.where(fn, node)
+        allowed = is_sub(cls.name, "SyntheticBlock") or cls.name == "RegionBlock"
+        if via == "direct":
+            if allowed:
+                out.append(ok("STORE-2", fn.qualname, key, where, f"constructs {cls.name}", nontrivial=False))
+            else:
+                out.append(bad("STORE-2", fn.qualname, key, where, f"restructuring code constructs a {cls.name}: an input block would be rebuilt (payload lost / duplicated) instead of moved"))
+        else:
+            # generic block_type(...): the static bound and every library argument must be synthetic
+            var = A.dotted(node.func) or "?"
+            if not allowed:
+                out.append(bad("STORE-2", fn.qualname, key, where, f"generic constructor '{var}' is typed type[{cls.name}], which admits payload-carrying blocks"))
+                continue
+            params = [a.arg for a in fn.params]
+            bad_args = []
+            n_sites = 0
+            if var in params:
+                idx = params.index(var) - (1 if fn.cls is not None and not fn.is_static else 0)
+                for site in ctx.cg.call_sites_of(fn):
+                    arg = kw(site.node, var, idx)
+                    if arg is None:
+                        continue
+                    n_sites += 1
+                    an = (A.dotted(arg) or "").split(".")[-1]
+                    if an in prog.classes:
+                        if not (is_sub(an, "SyntheticBlock") or an == "RegionBlock"):
+                            bad_args.append(f"{site.caller.qualname} passes {an}")
+                    elif an != var:
+                        bad_args.append(f"{site.caller.qualname} passes {A.unparse(arg)} (not a class name)")
+            if bad_args:
+                out.append(bad("STORE-2", fn.qualname, key, where, f"'{var}(...)' can build a non-synthetic block: " + "; ".join(bad_args)))
+            else:
+                out.append(ok("STORE-2", fn.qualname, key, where, f"'{var}' is bounded by type[{cls.name}] and all {n_sites} library call sites pass synthetic classes"))
+    return out
+
+
+# ------------------------------------------------------------------ carriers
+
+
+def _assign_parts(stmt):
+    """([targets], value) for Assign and for AnnAssign with a value, else None"""
+    if isinstance(stmt, ast.Assign):
+        return list(stmt.targets), stmt.value
+    if isinstance(stmt, ast.AnnAssign) and stmt.value is not None:
+        return [stmt.target], stmt.value
+    return None
+
+
+def _graph_pop(node: ast.AST) -> Optional[Tuple[str, str]]:
+    """(G text, key text) when node is `G.graph.pop(k)`"""
+    if isinstance(node, ast.Call) and isinstance(node.func, ast.Attribute) and node.func.attr == "pop" and node.args:
+        recv = node.func.value
+        if isinstance(recv, ast.Attribute) and recv.attr == "graph":
+            return A.unparse(recv.value), A.unparse(node.args[0])
+    return None
+
+
+def _graph_view(node: ast.AST) -> Optional[Tuple[str, str]]:
+    """(G, k) when node is `G.graph[k]` or `G[k]` (a view of the stored block)"""
+    if isinstance(node, ast.Subscript) and not isinstance(node.slice, ast.Slice):
+        v = node.value
+        if isinstance(v, ast.Attribute) and v.attr == "graph":
+            return A.unparse(v.value), A.unparse(node.slice)
+        if isinstance(v, ast.Name):
+            return A.unparse(v), A.unparse(node.slice)
+    return None
+
+
+def _is_store_of(stmt_node, G: str, carriers: Set[str]) -> bool:
+    """statement stores a carrier back into graph G (add_block / subscript store)"""
+    s = stmt_node.stmt
+    if s is None:
+        return False
+    for n in stmt_node.walk():
+        if isinstance(n, ast.Call) and isinstance(n.func, ast.Attribute) and n.func.attr == "add_block" and A.unparse(n.func.value) == G and n.args:
+            if A.names_in(n.args[0]) & carriers or _graph_pop(_innermost_receiver(n.args[0])) is not None:
+                return True
+    if isinstance(s, ast.Assign):
+        for t in s.targets:
+            if isinstance(t, ast.Subscript):
+                base = t.value
+                bt = A.unparse(base)
+                if bt in (G + ".graph", G) and A.names_in(s.value) & carriers:
+                    return True
+    return False
+
+
+def _innermost_receiver(e: ast.AST) -> ast.AST:
+    while isinstance(e, ast.Call) and isinstance(e.func, ast.Attribute) and e.func.attr in RETARGET:
+        e = e.func.value
+    return e
+
+
+def _carrier_names(fn_node: ast.AST, first: str) -> Set[str]:
+    """names the popped block may travel under: re-bindings from expressions mentioning a carrier"""
+    carriers = {first}
+    changed = True
+    while changed:
+        changed = False
+        for s in A.walk_no_nested(fn_node):
+            ap = _assign_parts(s)
+            if ap is not None and A.names_in(ap[1]) & carriers:
+                # x = carrier.method(...), x = f(carrier, ...)
+                v = ap[1]
+                ok_form = isinstance(v, ast.Name) or (isinstance(v, ast.Call) and ((isinstance(v.func, ast.Attribute) and A.names_in(v.func.value) & carriers) or any(isinstance(a, ast.Name) and a.id in carriers for a in v.args)))
+                if ok_form:
+                    for t in ap[0]:
+                        if isinstance(t, ast.Name) and t.id not in carriers:
+                            carriers.add(t.id)
+                            changed = True
+    return carriers
+
+
+@rule("STORE-3", 7, "every block popped from a graph is stored back into the same graph on every path; blocks are deleted only after being moved, as the same objects, into a sub-graph")
+def store3(ctx) -> List[Ob]:
+    out: List[Ob] = []
+    for fn in _core_functions(ctx):
+        cfg = ctx.cfg(fn)
+        for c in A.walk_no_nested(fn.node):
+            gp = _graph_pop(c) if isinstance(c, ast.Call) else None
+            if gp is None:
+                continue
+            G, k = gp
+            key = A.alpha_key(A.enclosing_stmt(c) or c)
+            where = ctx.where(fn, c)
+            stmt = A.enclosing_stmt(c)
+            n = cfg.node_of(c)
+            if n is None:
+                out.append(unresolved("STORE-3", fn.qualname, key, where, "pop site not found in the CFG"))
+                continue
+            # (a) chained: the pop is (a receiver inside) the argument of add_block in the same statement
+            if _is_store_of(n, G, set()) or (isinstance(stmt, ast.Expr) and _is_store_of(n, G, {"<none>"})):
+                out.append(ok("STORE-3", fn.qualname, key, where, f"popped block re-added to {G} in the same statement"))
+                continue
+            ap = _assign_parts(stmt)
+            if not (ap is not None and len(ap[0]) == 1 and isinstance(ap[0][0], ast.Name)):
+                out.append(bad("STORE-3", fn.qualname, key, where, f"block popped from {G}.graph is neither bound to a name nor re-added in the same statement: it is dropped"))
+                continue
+            carriers = _carrier_names(fn.node, ap[0][0].id)
+            store = lambda x: _is_store_of(x, G, carriers)  # noqa: E731
+            # every path from the pop to the normal exit, and back to the pop itself (next
+            # iteration), passes a store of a carrier into the same graph
+            reach = cfg.reachable(n, avoid=store)
+            leaks = []
+            if cfg.exit in reach:
+                leaks.append("function exit")
+            if n in reach:
+                leaks.append("the next iteration (pop again)")
+            if leaks:
+                # a path witness: first statement after which no store follows
+                wit = sorted((x.lineno for x in reach if x.stmt is not None and isinstance(x.stmt, (ast.Continue, ast.Return, ast.Break))), key=int)
+                out.append(bad("STORE-3", fn.qualname, key, where,
+                               f"block popped from {G}.graph can reach {' and '.join(leaks)} without being stored back: the block is lost",
+                               [f"carriers: {sorted(carriers)}"] + ([f"escaping path passes line {wit[0]}"] if wit else [])))
+            else:
+                out.append(ok("STORE-3", fn.qualname, key, where, f"carrier {sorted(carriers)} stored back into {G} on every path"))
+        # deletion confinement
+        for c in A.walk_no_nested(fn.node):
+            is_rm = isinstance(c, ast.Call) and isinstance(c.func, ast.Attribute) and c.func.attr == "remove_blocks"
+            is_del = isinstance(c, ast.Delete) and any(isinstance(t, ast.Subscript) and A.unparse(t.value).endswith(".graph") for t in c.targets)
+            if not (is_rm or is_del):
+                continue
+            if fn.name == "remove_blocks":
+                continue  # the primitive itself
+            key = A.alpha_key(c)
+            where = ctx.where(fn, c)
+            if is_del:
+                out.append(bad("STORE-3", fn.qualname, key, where, "blocks are deleted from a graph directly"))
+                continue
+            G = A.unparse(c.func.value)
+            S = A.unparse(c.args[0]) if c.args else "?"
+            n = cfg.node_of(c)
+            moved = None
+            for d in A.walk_no_nested(fn.node):
+                if isinstance(d, ast.DictComp) and len(d.generators) == 1:
+                    g = d.generators[0]
+                    if S in A.unparse(g.iter) and isinstance(g.target, ast.Name):
+                        v = _graph_view(d.value)
+                        if v is not None and v[0] == G and v[1] == g.target.id and A.unparse(d.key) == g.target.id:
+                            dn = cfg.node_of(d)
+                            par = A.parent(d)
+                            into_scfg = isinstance(par, ast.Call) and (A.dotted(par.func) or "").split(".")[-1] == "SCFG"
+                            if dn is not None and n is not None and cfg.dominates(dn, n) and into_scfg:
+                                moved = d
+            if moved is not None:
+                out.append(ok("STORE-3", fn.qualname, key, where, f"removes exactly the blocks {S} that were moved, as the same objects {G}.graph[name], into a sub-SCFG before"))
+            else:
+                out.append(bad("STORE-3", fn.qualname, key, where, f"{G}.remove_blocks({S}) is not preceded by moving the very same block objects of {S} into a sub-graph: blocks are deleted (or were copied instead of moved)"))
+    return out
+
+
+# ------------------------------------------------------------------ STORE-4/5
+
+
+class Retarget:
+    """one replace_jump_targets / replace_backedges call outside basic_block.py"""
+
+    def __init__(self, ctx, fn: FunctionInfo, call: ast.Call) -> None:
+        self.ctx = ctx
+        self.fn = fn
+        self.call = call
+        self.cfg = ctx.cfg(fn)
+        self.method = call.func.attr  # type: ignore[attr-defined]
+        self.arg = kw(call, "jump_targets", 0) or kw(call, "backedges", 0)
+        self.recv = call.func.value  # type: ignore[attr-defined]
+        self.node = self.cfg.node_of(call)
+        self.L: Optional[str] = None
+        self.Ldef = None  # cfg node of `L = list(B.attr)`
+        self.src_block: Optional[ast.AST] = None
+        self.src_attr: Optional[str] = None
+        self.problems: List[str] = []
+        self._resolve()
+
+    def _resolve(self) -> None:
+        a = self.arg
+        if isinstance(a, ast.Call) and isinstance(a.func, ast.Name) and a.func.id == "tuple" and len(a.args) == 1 and isinstance(a.args[0], ast.Name):
+            self.L = a.args[0].id
+            defs = [d for d in self.cfg.reaching_defs(self.call, self.L)]
+            real = [d for d in defs if d.stmt is not None]
+            if len(real) != 1 or len(defs) != 1:
+                self.problems.append(f"list {self.L} has {len(defs)} reaching definitions")
+                return
+            d = real[0]
+            ap = _assign_parts(d.stmt)
+            v = ap[1] if ap else None
+            if isinstance(v, ast.Call) and isinstance(v.func, ast.Name) and v.func.id == "list" and len(v.args) == 1 and isinstance(v.args[0], ast.Attribute):
+                self.Ldef = d
+                self.src_block = v.args[0].value
+                self.src_attr = v.args[0].attr
+            else:
+                self.problems.append(f"{self.L} is not initialised as list(<block>.<targets>)")
+        else:
+            self.problems.append("argument is not tuple(<list copy>)")
+
+    def block_identity(self, e: ast.AST, at: ast.AST) -> Optional[Tuple[str, str]]:
+        """(graph, key) of the block denoted by expression e"""
+        e = _innermost_receiver(e)
+        gp = _graph_pop(e) if isinstance(e, ast.Call) else None
+        if gp:
+            return gp
+        gv = _graph_view(e)
+        if gv:
+            return gv
+        if isinstance(e, ast.Name):
+            ids = set()
+            seen = set()
+            work = [(e.id, at)]
+            while work:
+                nm, site = work.pop()
+                for d in self.cfg.reaching_defs(site, nm):
+                    if d.stmt is None or id(d) in seen:
+                        if d.stmt is None:
+                            ids.add(("<param>", nm))
+                        continue
+                    seen.add(id(d))
+                    if _assign_parts(d.stmt) is not None:
+                        v = _innermost_receiver(_assign_parts(d.stmt)[1])
+                        if isinstance(v, ast.Call) and not _graph_pop(v) and isinstance(v.func, ast.Name) and v.args and isinstance(v.args[0], ast.Name):
+                            # x = update_exiting(x, ...)
+                            work.append((v.args[0].id, d.stmt))
+                            continue
+                        r = (_graph_pop(v) if isinstance(v, ast.Call) else None) or _graph_view(v)
+                        if r:
+                            ids.add(r)
+                        elif isinstance(v, ast.Name):
+                            work.append((v.id, d.stmt))
+                        else:
+                            ids.add(("<expr>", A.unparse(v)[:40]))
+                    elif isinstance(d.stmt, ast.For):
+                        ids.add(("<loopvar>", nm))
+            if len(ids) == 1:
+                return next(iter(ids))
+            if len(ids) > 1:
+                return ("<several>", ",".join(sorted(str(i) for i in ids)))
+        return None
+
+    def mutations(self) -> List[Tuple[ast.AST, str]]:
+        """(statement, kind) for every mutation of L in the function"""
+        out = []
+        if self.L is None:
+            return out
+        for s in A.walk_no_nested(self.fn.node):
+            if isinstance(s, ast.Assign):
+                for t in s.targets:
+                    if isinstance(t, ast.Subscript) and isinstance(t.value, ast.Name) and t.value.id == self.L:
+                        out.append((s, "slice-store" if isinstance(t.slice, ast.Slice) else "store"))
+            elif isinstance(s, ast.AugAssign) and isinstance(s.target, ast.Name) and s.target.id == self.L:
+                out.append((s, "augassign"))
+            elif isinstance(s, ast.Delete):
+                for t in s.targets:
+                    if isinstance(t, ast.Subscript) and isinstance(t.value, ast.Name) and t.value.id == self.L:
+                        out.append((s, "del"))
+            elif isinstance(s, ast.Call) and isinstance(s.func, ast.Attribute) and isinstance(s.func.value, ast.Name) and s.func.value.id == self.L and s.func.attr in LIST_MUTATORS:
+                out.append((s, s.func.attr))
+        return out
+
+    def relevant(self, stmt: ast.AST) -> bool:
+        """the mutation can execute between L's definition and this call"""
+        n = self.cfg.node_of(stmt)
+        if n is None or self.Ldef is None or self.node is None:
+            return True
+        after_def = n in self.cfg.reachable(self.Ldef, avoid=lambda x: x is self.Ldef)
+        before_call = self.node in self.cfg.reachable(n, avoid=lambda x: x is self.Ldef) or n is self.node
+        return after_def and before_call
+
+
+def _retargets(ctx) -> List[Retarget]:
+    out = []
+    bbmod = ctx.prog.module("basic_block")
+    for fn in ctx.prog.functions:
+        if fn.module is bbmod:
+            continue
+        if fn.module not in _owner_modules(ctx) and not fn.module.name.endswith("ast_transforms"):
+            continue
+        for c in method_calls(fn.node, "replace_jump_targets") + method_calls(fn.node, "replace_backedges"):
+            out.append(Retarget(ctx, fn, c))
+    return out
+
+
+@rule("STORE-4", 6, "successors are re-targeted positionally: the new tuple is the block's own tuple with elements overwritten in place (same arity, same positions)")
+def store4(ctx) -> List[Ob]:
+    out: List[Ob] = []
+    for rt in _retargets(ctx):
+        fn, c = rt.fn, rt.call
+        key = A.alpha_key(c)
+        where = ctx.where(fn, c)
+        if rt.problems:
+            # an element-wise comprehension over the block's own tuple is positional too
+            a = rt.arg
+            comp = a.args[0] if isinstance(a, ast.Call) and isinstance(a.func, ast.Name) and a.func.id == "tuple" and a.args else a
+            if isinstance(comp, (ast.GeneratorExp, ast.ListComp)) and len(comp.generators) == 1 and not comp.generators[0].ifs and isinstance(comp.generators[0].iter, ast.Attribute) and comp.generators[0].iter.attr in ("_jump_targets", "jump_targets", "backedges"):
+                out.append(ok("STORE-4", fn.qualname, key, where, "element-wise comprehension over the block's own tuple"))
+            else:
+                out.append(bad("STORE-4", fn.qualname, key, where, f"the new target tuple is not derived positionally from the block's own tuple: {rt.problems[0]}"))
+            continue
+        # same block?
+        rid = rt.block_identity(rt.recv, c)
+        sid = rt.block_identity(rt.src_block, rt.Ldef.stmt)
+        if rid is None or sid is None or rid != sid:
+            out.append(bad("STORE-4", fn.qualname, key + " :: source", where,
+                           f"the list {rt.L} is copied from block {sid} but written to block {rid}: targets of one block given to another"))
+        else:
+            out.append(ok("STORE-4", fn.qualname, key + " :: source", where, f"{rt.L} copied from and written to the same block {rid}", nontrivial=True))
+        # the copy must be of the stored tuple, not of the filtered view, unless the field written is the same view
+        want = {"replace_jump_targets": "_jump_targets", "replace_backedges": "backedges"}[rt.method]
+        vkey = key + " :: view"
+        if rt.src_attr == want:
+            out.append(ok("STORE-4", fn.qualname, vkey, where, f"copy of the stored tuple '{want}'", nontrivial=False))
+        elif rt.src_attr == "jump_targets" and want == "_jump_targets":
+            out.append(bad("STORE-4", fn.qualname, vkey, where,
+                           f"{rt.L} is a copy of the filtered view '.jump_targets' (declared back edges removed) but is written back as the full '_jump_targets': a block with a declared back edge loses that successor"))
+        else:
+            out.append(bad("STORE-4", fn.qualname, vkey, where, f"{rt.L} is copied from '.{rt.src_attr}' but written as '{want}'"))
+        # mutations between the copy and the call
+        for stmt, kind in rt.mutations():
+            if not rt.relevant(stmt):
+                continue
+            mkey = key + " :: " + A.alpha_key(stmt)
+            mwhere = ctx.where(fn, stmt)
+            if kind == "store":
+                out.append(ok("STORE-4", fn.qualname, mkey, mwhere, "in-place subscript store keeps arity and positions"))
+            else:
+                out.append(bad("STORE-4", fn.qualname, mkey, mwhere, f"'{A.unparse(stmt)[:50]}' ({kind}) changes the arity or the positions of the successor list before it is written back"))
+    return out
+
+
+def _admits(ctx, fn, expr: ast.AST, cls_name: str, rt: Optional[Retarget] = None) -> Tuple[bool, str]:
+    """the static type of expr admits an instance of cls_name"""
+    prog = ctx.prog
+    e = _innermost_receiver(expr)
+    if isinstance(e, ast.Call) and _graph_pop(e):
+        return True, "BasicBlock (popped from a graph)"
+    t = ctx.type_of(fn, e)
+    target = prog.cls(cls_name)
+    hits = []
+    for m in members(strip_none(t)):
+        if m[0] == "cls" and m[1] in prog.classes:
+            c = prog.classes[m[1]]
+            if target.is_subclass_of(c) or c.is_subclass_of(target):
+                hits.append(c.name)
+        elif m[0] == "any":
+            hits.append("unknown")
+    return bool(hits), ",".join(hits)
+
+
+@rule("STORE-5", 6, "a block that may be a branching synthetic block gets at most one new target per re-targeting call, never a removal only (its value table can only follow one replacement)")
+def store5(ctx) -> List[Ob]:
+    out: List[Ob] = []
+    for rt in _retargets(ctx):
+        if rt.method != "replace_jump_targets":
+            continue
+        fn, c, cfg = rt.fn, rt.call, rt.cfg
+        key = A.alpha_key(c)
+        where = ctx.where(fn, c)
+        admits, why = _admits(ctx, fn, rt.recv, "SyntheticBranch")
+        if not admits:
+            out.append(ok("STORE-5", fn.qualname, key, where, "receiver cannot be a branching block", nontrivial=False))
+            continue
+        if rt.problems or rt.node is None:
+            out.append(unresolved("STORE-5", fn.qualname, key, where, f"cannot classify the edit ({'; '.join(rt.problems)})"))
+            continue
+        muts = [(s, k) for s, k in rt.mutations() if rt.relevant(s)]
+        stores = [(s, k) for s, k in muts if k == "store"]
+        removals = [(s, k) for s, k in muts if k in ("pop", "remove", "del", "clear")]
+        verdict = "<=1"
+        deriv: List[str] = []
+        # many: a store that can execute twice without the call in between, with a right-hand side that varies
+        for s, _k in stores:
+            sn = cfg.node_of(s)
+            again = sn in cfg.reachable(sn, avoid=lambda x: x is rt.node or x is rt.Ldef)
+            rhs = s.value  # type: ignore[attr-defined]
+            varies = False
+            if again:
+                for nm in A.names_in(rhs):
+                    for d in cfg.reaching_defs(s, nm):
+                        if d.stmt is not None and d in cfg.reachable(sn, avoid=lambda x: x is rt.node or x is rt.Ldef) and sn in cfg.reachable(d, avoid=lambda x: x is rt.node or x is rt.Ldef):
+                            varies = True
+                if varies:
+                    verdict = "many"
+                    deriv.append(f"line {A.lineno(s)}: {A.unparse(s)[:60]} repeats before the call at line {A.lineno(c)} with a fresh right-hand side each time")
+        # two different stores on one path without the call in between
+        for i, (s1, _a) in enumerate(stores):
+            for s2, _b in stores[i + 1:]:
+                n1, n2 = cfg.node_of(s1), cfg.node_of(s2)
+                if A.unparse(s1.value) != A.unparse(s2.value):  # type: ignore[attr-defined]
+                    if n2 in cfg.reachable(n1, avoid=lambda x: x is rt.node or x is rt.Ldef) or n1 in cfg.reachable(n2, avoid=lambda x: x is rt.node or x is rt.Ldef):
+                        verdict = "many"
+                        deriv.append(f"stores at lines {A.lineno(s1)} and {A.lineno(s2)} can both execute before one call")
+        # removal-only: a path def -> call that passes a removal but no store
+        if removals and verdict != "many":
+            store_nodes = {cfg.node_of(s) for s, _ in stores}
+            for s, k in removals:
+                rn = cfg.node_of(s)
+                # def -> removal without store, removal -> call without store
+                pre = rn in cfg.reachable(rt.Ldef, avoid=lambda x: x in store_nodes) or rn is rt.Ldef
+                post = rt.node in cfg.reachable(rn, avoid=lambda x: x in store_nodes)
+                if pre and post:
+                    verdict = "removal-only"
+                    deriv.append(f"line {A.lineno(s)}: {A.unparse(s)[:50]} can reach the call without any store of a new target")
+        if verdict == "<=1":
+            out.append(ok("STORE-5", fn.qualname, key, where, f"receiver may be a SyntheticBranch ({why}); at most one fresh target is substituted per call", [f"{len(stores)} store(s), {len(removals)} removal(s) examined"]))
+        else:
+            out.append(bad("STORE-5", fn.qualname, key + f" :: {verdict}", where,
+                           f"receiver may be a SyntheticBranch ({why}) but the edit is '{verdict}': SyntheticBranch.replace_jump_targets asserts that exactly one target is new (AssertionError / corrupt value table)", deriv))
+    return out
+
+
+# ------------------------------------------------------------------ STORE-6
+
+
+def _propagator(ctx) -> FunctionInfo:
+    f = ctx.prog.find_function("update_exiting")
+    if f is not None:
+        return f
+    # by role: takes a RegionBlock, pops subregion.graph[<...exiting>], recurses
+    for g in ctx.prog.functions:
+        if g.params and g.params[0].annotation is not None and (A.dotted(g.params[0].annotation) or "") == "RegionBlock":
+            txt = A.unparse(g.node)
+            if ".subregion.graph.pop(" in txt and g.name + "(" in txt.split("\n", 1)[1]:
+                return g
+    raise AnalysisError("no propagator (update_exiting) found")
+
+
+@rule("STORE-6", 8, "re-targeting a block that may be a region is propagated to the region's exiting block (recursively) before the result is stored")
+def store6(ctx) -> List[Ob]:
+    out: List[Ob] = []
+    prog = ctx.prog
+    prop = _propagator(ctx)
+    bbmod = prog.module("basic_block")
+    for fn in prog.functions:
+        if fn.module is bbmod or fn.module not in _owner_modules(ctx):
+            continue
+        cfg = ctx.cfg(fn)
+        calls = []
+        for m in RETARGET:
+            calls += method_calls(fn.node, m)
+        # group chained calls on one receiver expression: the outermost call of a chain is the site
+        inner = set()
+        for c in calls:
+            r = c.func.value
+            while isinstance(r, ast.Call) and isinstance(r.func, ast.Attribute) and r.func.attr in RETARGET:
+                inner.add(id(r))
+                r = r.func.value
+        for c in calls:
+            if id(c) in inner:
+                continue
+            key = A.alpha_key(c)
+            where = ctx.where(fn, c)
+            admits, why = _admits(ctx, fn, c.func.value, "RegionBlock")
+            if not admits:
+                out.append(ok("STORE-6", fn.qualname, key, where, "receiver cannot be a region", nontrivial=False))
+                continue
+            stmt = A.enclosing_stmt(c)
+            n = cfg.node_of(c)
+            # result bound to a name?
+            ap = _assign_parts(stmt)
+            if ap is not None and len(ap[0]) == 1 and isinstance(ap[0][0], ast.Name) and ap[1] is c:
+                x = ap[0][0].id
+                carriers = _carrier_names(fn.node, x)
+
+                def is_prop(node) -> bool:
+                    # an `if isinstance(carrier, RegionBlock):` whose body calls the propagator on it
+                    s = node.stmt
+                    if node.kind != "if":
+                        return False
+                    t = s.test
+                    conj = t.values if isinstance(t, ast.BoolOp) and isinstance(t.op, ast.And) else [t]
+                    guard = any(isinstance(v, ast.Call) and isinstance(v.func, ast.Name) and v.func.id == "isinstance" and len(v.args) == 2 and isinstance(v.args[0], ast.Name) and v.args[0].id in carriers and (A.dotted(v.args[1]) or "").endswith("RegionBlock") for v in conj)
+                    if not guard:
+                        return False
+                    for k in A.walk_no_nested(ast.Module(s.body, [])):
+                        if isinstance(k, ast.Call) and (A.dotted(k.func) or "").split(".")[-1] == prop.name and k.args and isinstance(k.args[0], ast.Name) and k.args[0].id in carriers:
+                            return True
+                    return False
+
+                def is_store(node) -> bool:
+                    if node.stmt is None:
+                        return False
+                    for k in node.walk():
+                        if isinstance(k, ast.Call) and isinstance(k.func, ast.Attribute) and k.func.attr == "add_block" and k.args and A.names_in(k.args[0]) & carriers:
+                            return True
+                    s = node.stmt
+                    if isinstance(s, ast.Assign) and any(isinstance(t, ast.Subscript) for t in s.targets) and A.names_in(s.value) & carriers:
+                        return True
+                    if isinstance(s, ast.Return) and s.value is not None and A.names_in(s.value) & carriers:
+                        return True
+                    return False
+
+                # a later re-targeting of the same carrier restarts the obligation there
+                def is_retarget(node) -> bool:
+                    if node is n or node.stmt is None:
+                        return False
+                    ap2 = _assign_parts(node.stmt)
+                    return ap2 is not None and isinstance(ap2[1], ast.Call) and isinstance(ap2[1].func, ast.Attribute) and ap2[1].func.attr in RETARGET and bool(A.names_in(ap2[1].func.value) & carriers)
+
+                reach = cfg.reachable(n, avoid=lambda z: is_prop(z) or is_retarget(z))
+                unprop = [z for z in reach if is_store(z)]
+                # paths that stop at a later retarget are judged at that retarget
+                if unprop:
+                    out.append(bad("STORE-6", fn.qualname, key, where,
+                                   f"the receiver may be a RegionBlock ({why}); its result is stored (line {unprop[0].lineno}) on a path without `if isinstance(.., RegionBlock): {prop.name}(..)`: the region's exiting block keeps the old target name",
+                                   [f"carriers {sorted(carriers)}"]))
+                else:
+                    # pair check: the propagator renames the same (old, new) pair as the list edit
+                    pair = _pair_check(ctx, fn, cfg, n, carriers, prop)
+                    if pair:
+                        out.append(bad("STORE-6", fn.qualname, key + " :: pair", where, pair))
+                    else:
+                        out.append(ok("STORE-6", fn.qualname, key, where, f"result passes the guarded propagator {prop.name} before every store"))
+            else:
+                out.append(bad("STORE-6", fn.qualname, key, where,
+                               f"the receiver may be a RegionBlock ({why}) and the result is stored in the same expression: no propagation to the region's exiting block is possible"))
+    return out
+
+
+def _pair_check(ctx, fn, cfg, n, carriers, prop) -> Optional[str]:
+    """the (old, new) arguments of the propagator call must be the pair substituted in the target list"""
+    stmt = n.stmt
+    call = _assign_parts(stmt)[1]
+    arg = kw(call, "jump_targets", 0) or kw(call, "backedges", 0)
+    if not (isinstance(arg, ast.Call) and arg.args and isinstance(arg.args[0], ast.Name)):
+        return None
+    L = arg.args[0].id
+    stores = []
+    for s in A.walk_no_nested(fn.node):
+        if isinstance(s, ast.Assign):
+            for t in s.targets:
+                if isinstance(t, ast.Subscript) and isinstance(t.value, ast.Name) and t.value.id == L and not isinstance(t.slice, ast.Slice):
+                    # the old name: compared in the guard or used to find the index
+                    olds = set(A.names_in(t.slice))
+                    for anc in A.ancestors(s):
+                        if isinstance(anc, ast.If):
+                            olds |= A.names_in(anc.test)
+                        if anc is fn.node:
+                            break
+                    stores.append((A.unparse(s.value), olds))
+    if not stores:
+        return None
+    pcs = []
+    for z in cfg.reachable(n):
+        if z.stmt is None:
+            continue
+        for k in z.walk():
+            if isinstance(k, ast.Call) and (A.dotted(k.func) or "").split(".")[-1] == prop.name and len(k.args) >= 3 and isinstance(k.args[0], ast.Name) and k.args[0].id in carriers:
+                pcs.append(k)
+    for k in pcs:
+        old, new = A.unparse(k.args[1]), A.unparse(k.args[2])
+        if not any(new == rhs and (old in olds) for rhs, olds in stores):
+            return f"{prop.name}({A.unparse(k.args[0])}, {old}, {new}) at line {A.lineno(k)} renames a different pair than the list edit ({'; '.join(f'new={r}' for r, _ in stores[:2])}): the exiting block gets the wrong name"
+    return None
+
+
+# ------------------------------------------------------------------ STORE-7
+
+
+def _rename_loops(fn_node: ast.AST):
+    """loops of the form `for i, s in enumerate(L): if s == OLD: L[i] = NEW`
+    -> [(L, OLD, NEW, loop)]"""
+    out = []
+    for lp in A.walk_no_nested(fn_node):
+        if not (isinstance(lp, ast.For) and isinstance(lp.iter, ast.Call) and isinstance(lp.iter.func, ast.Name) and lp.iter.func.id == "enumerate" and lp.iter.args and isinstance(lp.iter.args[0], ast.Name)):
+            continue
+        L = lp.iter.args[0].id
+        if not (isinstance(lp.target, ast.Tuple) and len(lp.target.elts) == 2 and all(isinstance(e, ast.Name) for e in lp.target.elts)):
+            continue
+        iv, sv = lp.target.elts[0].id, lp.target.elts[1].id
+        for st in lp.body:
+            if isinstance(st, ast.If) and isinstance(st.test, ast.Compare) and len(st.test.ops) == 1 and isinstance(st.test.ops[0], ast.Eq):
+                l, r = st.test.left, st.test.comparators[0]
+                names = {A.unparse(l), A.unparse(r)}
+                if sv in names:
+                    old = (names - {sv}).pop() if len(names) == 2 else sv
+                    for b in st.body:
+                        if isinstance(b, ast.Assign) and len(b.targets) == 1 and isinstance(b.targets[0], ast.Subscript) and A.unparse(b.targets[0].value) == L and A.unparse(b.targets[0].slice) == iv:
+                            out.append((L, old, A.unparse(b.value), lp))
+    return out
+
+
+@rule("STORE-7", 3, "a rename reaches both tuples of a block (targets and back edges) and every position")
+def store7(ctx) -> List[Ob]:
+    out: List[Ob] = []
+    prog = ctx.prog
+    # (a) rename sites in the hierarchy code
+    for fn in prog.functions:
+        if fn.module not in _owner_modules(ctx):
+            continue
+        cfg = ctx.cfg(fn)
+        loops = _rename_loops(fn.node)
+        if not loops:
+            continue
+        # origin of each renamed list
+        origin = {}
+        for L, old, new, lp in loops:
+            for d in cfg.reaching_defs(lp.iter, L):
+                if d.stmt is not None and isinstance(d.stmt, ast.Assign):
+                    v = d.stmt.value
+                    if isinstance(v, ast.Call) and isinstance(v.func, ast.Name) and v.func.id == "list" and v.args and isinstance(v.args[0], ast.Attribute):
+                        origin[id(lp)] = (A.unparse(v.args[0].value), v.args[0].attr)
+        by_block: Dict[str, Dict[str, Tuple[str, str, ast.AST]]] = {}
+        for L, old, new, lp in loops:
+            o = origin.get(id(lp))
+            if o is None:
+                continue
+            by_block.setdefault(o[0], {})[o[1]] = (old, new, lp)
+        for blk, attrs in by_block.items():
+            key = f"rename in targets of '{A.alpha_key(ast.parse(blk, mode='eval').body)}'"
+            tg = attrs.get("_jump_targets") or attrs.get("jump_targets")
+            be = attrs.get("backedges")
+            if tg is None:
+                continue
+            where = ctx.where(fn, tg[2])
+            if be is None:
+                out.append(bad("STORE-7", fn.qualname, key, where, f"{tg[0]} is renamed to {tg[1]} in the jump targets of {blk} but not in its back edges: a declared back edge keeps the old name"))
+            elif (be[0], be[1]) != (tg[0], tg[1]):
+                out.append(bad("STORE-7", fn.qualname, key, where, f"targets of {blk} rename {tg[0]}->{tg[1]} but its back edges rename {be[0]}->{be[1]}"))
+            else:
+                # both results must be written back
+                txt = A.unparse(fn.node)
+                if "replace_backedges" not in txt:
+                    out.append(bad("STORE-7", fn.qualname, key, where, "back edges are renamed in a copy that is never written back (no replace_backedges)"))
+                else:
+                    out.append(ok("STORE-7", fn.qualname, key, where, f"{tg[0]}->{tg[1]} applied to both _jump_targets and backedges of {blk}"))
+    # (b) positional renames guarded by a length test must treat every position independently
+    for fn in prog.functions:
+        for st in A.walk_no_nested(fn.node):
+            if not isinstance(st, ast.If):
+                continue
+            n_len, X = _len_eq(st.test)
+            if n_len is None or n_len < 1:
+                continue
+            handled: Dict[int, str] = {}
+            chained = False
+            for sub in A.walk_no_nested(ast.Module(st.body, [])):
+                if isinstance(sub, ast.If):
+                    idx = _pos_test(sub.test, X)
+                    if idx is not None and _stores_pos(sub.body, X, idx):
+                        handled[idx] = "independent"
+                        # elif arms
+                        cur = sub
+                        while len(cur.orelse) == 1 and isinstance(cur.orelse[0], ast.If):
+                            cur = cur.orelse[0]
+                            j = _pos_test(cur.test, X)
+                            if j is not None and _stores_pos(cur.body, X, j):
+                                handled[j] = "elif"
+                                chained = True
+            if not handled:
+                continue
+            key = f"positional rename under len({A.alpha_key(ast.parse(X, mode='eval').body)}) == {n_len}"
+            where = ctx.where(fn, st)
+            missing = set(range(n_len)) - set(handled)
+            if chained:
+                which = sorted(i for i, h in handled.items() if h == "elif")
+                out.append(bad("STORE-7", fn.qualname, key, where, f"positions of {X} are renamed in an if/elif chain: when several positions hold the name only the first is rewired, position(s) {which} keep a name that no longer exists"))
+            elif missing:
+                out.append(bad("STORE-7", fn.qualname, key, where, f"position(s) {sorted(missing)} of {X} are never renamed"))
+            else:
+                out.append(ok("STORE-7", fn.qualname, key, where, f"every position {sorted(handled)} renamed by an independent test"))
+    return out
+
+
+def _len_eq(test: ast.AST):
+    if isinstance(test, ast.Compare) and len(test.ops) == 1 and isinstance(test.ops[0], ast.Eq):
+        l, r = test.left, test.comparators[0]
+        if isinstance(l, ast.Call) and isinstance(l.func, ast.Name) and l.func.id == "len" and l.args and isinstance(r, ast.Constant) and isinstance(r.value, int):
+            return r.value, A.unparse(l.args[0])
+    return None, None
+
+
+def _pos_test(test: ast.AST, X: str) -> Optional[int]:
+    if isinstance(test, ast.Compare) and len(test.ops) == 1 and isinstance(test.ops[0], ast.Eq):
+        for side in (test.left, test.comparators[0]):
+            if isinstance(side, ast.Subscript) and A.unparse(side.value) == X and isinstance(side.slice, ast.Constant) and isinstance(side.slice.value, int):
+                return side.slice.value
+    return None
+
+
+def _stores_pos(body: List[ast.stmt], X: str, idx: int) -> bool:
+    for b in body:
+        if isinstance(b, ast.Assign):
+            for t in b.targets:
+                if isinstance(t, ast.Subscript) and A.unparse(t.value) == X and isinstance(t.slice, ast.Constant) and t.slice.value == idx:
+                    return True
+    return False
+
+
+# ------------------------------------------------------------------ STORE-8
+
+
+@rule("STORE-8", 8, "a region is built with kind, header, exiting, sub-graph and parent, takes its targets from its exiting block, and all back pointers are fixed up afterwards")
+def store8(ctx) -> List[Ob]:
+    out: List[Ob] = []
+    prog = ctx.prog
+    er = prog.find_function("extract_region")
+    if er is None:
+        raise AnalysisError("extract_region not found")
+    cfg = ctx.cfg(er)
+    ctors = [c for c in A.walk_no_nested(er.node) if isinstance(c, ast.Call) and (A.dotted(c.func) or "").split(".")[-1] == "RegionBlock"]
+    if not ctors:
+        raise AnalysisError("no RegionBlock(...) construction in extract_region")
+    c = ctors[0]
+    cn = cfg.node_of(c)
+    where = ctx.where(er, c)
+    kws = {k.arg: k.value for k in c.keywords if k.arg}
+    need = ["name", "_jump_targets", "kind", "header", "subregion", "exiting", "parent_region"]
+    miss = [k for k in need if k not in kws]
+    if miss:
+        out.append(bad("STORE-8", er.qualname, "RegionBlock(...) fields", where, f"region constructed without {miss}"))
+    else:
+        out.append(ok("STORE-8", er.qualname, "RegionBlock(...) fields", where, "kind, header, exiting, subregion, parent_region all given"))
+    if miss:
+        return out
+    params = {p.arg for p in er.params}
+    # kind and parent come from the parameters
+    for fld, what in (("kind", "region_kind"), ("parent_region", "parent_region")):
+        v = kws[fld]
+        key = f"RegionBlock({fld}=...)"
+        if isinstance(v, ast.Name) and v.id in params:
+            out.append(ok("STORE-8", er.qualname, key, where, f"{fld} is the parameter {v.id}", nontrivial=False))
+        else:
+            out.append(bad("STORE-8", er.qualname, key, where, f"{fld}={A.unparse(v)} is not the caller's {what}"))
+    # _jump_targets read from the block named by the same definition as exiting=
+    jt = kws["_jump_targets"]
+    ex = kws["exiting"]
+    key = "RegionBlock(_jump_targets=...) from the exiting block"
+    src = None
+    if isinstance(jt, ast.Attribute) and jt.attr in ("jump_targets", "_jump_targets"):
+        v = _graph_view(jt.value)
+        if v:
+            src = v[1]
+    if src is not None and src == A.unparse(ex):
+        out.append(ok("STORE-8", er.qualname, key, where, f"targets read from block {src}, the same definition as exiting="))
+    else:
+        out.append(bad("STORE-8", er.qualname, key, where, f"the region's outgoing targets ({A.unparse(jt)[:50]}) are not read from its exiting block ({A.unparse(ex)})"))
+    # header / exiting are the unique header / exiting block of the set (definitions from the find_* results)
+    for fld, finder, pos in (("header", "find_headers_and_entries", 0), ("exiting", "find_exiting_and_exits", 0)):
+        v = kws[fld]
+        key = f"RegionBlock({fld}=...) provenance"
+        good = False
+        if isinstance(v, ast.Name):
+            for d in cfg.reaching_defs(c, v.id):
+                if d.stmt is not None and isinstance(d.stmt, ast.Assign) and "next(iter(" in A.unparse(d.stmt.value):
+                    inner = A.unparse(d.stmt.value)
+                    srcname = inner[len("next(iter("):-2]
+                    for d2 in cfg.reaching_defs(d.stmt, srcname):
+                        if d2.stmt is not None and isinstance(d2.stmt, ast.Assign) and finder in A.unparse(d2.stmt.value):
+                            t = d2.stmt.targets[0]
+                            if isinstance(t, ast.Tuple) and isinstance(t.elts[pos], ast.Name) and t.elts[pos].id == srcname:
+                                good = True
+        if good:
+            out.append(ok("STORE-8", er.qualname, key, where, f"{fld} is the single element of the first result of {finder}"))
+        else:
+            out.append(bad("STORE-8", er.qualname, key, where, f"{fld}={A.unparse(v)} is not the unique {fld} block computed by {finder}"))
+    # the sub-graph is the one handed to subregion= and is stored under name=
+    nm = kws["name"]
+    stores = [s for s in A.walk_no_nested(er.node) if isinstance(s, ast.Assign) and any(isinstance(t, ast.Subscript) and A.unparse(t.value).endswith(".graph") for t in s.targets)]
+    key = "region stored under its own name"
+    good = False
+    for s in stores:
+        t = s.targets[0]
+        rc = None
+        if isinstance(s.value, ast.Name):
+            for d in cfg.reaching_defs(s, s.value.id):
+                if d is cn:
+                    rc = True
+        if A.unparse(t.slice) == A.unparse(nm) and rc:
+            good = True
+    add = [k for k in method_calls(er.node, "add_block") if k.args and isinstance(k.args[0], ast.Name) and any(d is cn for d in cfg.reaching_defs(k, k.args[0].id))]
+    if good or add:
+        out.append(ok("STORE-8", er.qualname, key, where, f"stored as graph[{A.unparse(nm)}]"))
+    else:
+        out.append(bad("STORE-8", er.qualname, key, where, f"the new region is not stored under its own name {A.unparse(nm)}"))
+    # follow-ups after construction, on all paths to exit
+    rvar = None
+    st = A.enclosing_stmt(c)
+    if isinstance(st, ast.Assign) and isinstance(st.targets[0], ast.Name):
+        rvar = st.targets[0].id
+
+    def follows(pred) -> bool:
+        return cfg.exit not in cfg.reachable(cn, avoid=pred)
+
+    def setattr_of(attr: str):
+        def p(z) -> bool:
+            for k in z.walk():
+                if isinstance(k, ast.Call) and (A.dotted(k.func) or "") in ("object.__setattr__", "setattr") and len(k.args) == 3 and isinstance(k.args[1], ast.Constant) and k.args[1].value == attr:
+                    return True
+            return False
+
+        return p
+
+    key = "sub-graph back pointer 'region'"
+    if follows(setattr_of("region")):
+        out.append(ok("STORE-8", er.qualname, key, where, "subregion.region set to the new region on every path"))
+    else:
+        out.append(bad("STORE-8", er.qualname, key, where, "the sub-graph's 'region' back pointer is not set to the new region: it still points at a throw-away meta region"))
+    # (ii) header / exiting fix-up of the parent
+    for fld, meth in (("header", "replace_header"), ("exiting", "replace_exiting")):
+        key = f"parent {fld} fix-up"
+        hit = None
+        for z in cfg.nodes:
+            if z.kind == "if" and f"parent_region.{fld}" in A.unparse(z.stmt.test) and A.unparse(kws[fld]) in A.unparse(z.stmt.test):
+                calls = method_calls(ast.Module(z.stmt.body, []), meth)
+                if calls and calls[0].args and A.unparse(calls[0].args[0]) == A.unparse(nm):
+                    hit = z
+        if hit is not None and cfg.dominates(cn, hit) or (hit is not None and follows(lambda z, h=hit: z is h)):
+            out.append(ok("STORE-8", er.qualname, key, ctx.where(er, hit.stmt), f"parent's {fld} renamed to the region when it named the wrapped {fld} block"))
+        else:
+            out.append(bad("STORE-8", er.qualname, key, where, f"the parent region's '{fld}' is not updated when the wrapped block was the parent's {fld}: the parent names a block that is no longer at its level"))
+    # (iii) re-parenting of nested regions
+    key = "re-parenting of nested regions"
+    rep = None
+    for z in cfg.nodes:
+        if z.kind == "for" and ".graph" in A.unparse(z.stmt.iter):
+            for k in A.walk_no_nested(ast.Module(z.stmt.body, [])):
+                if isinstance(k, ast.Call) and (A.dotted(k.func) or "") in ("object.__setattr__", "setattr") and len(k.args) == 3 and isinstance(k.args[1], ast.Constant) and k.args[1].value == "parent_region" and rvar and A.unparse(k.args[2]) == rvar:
+                    rep = z
+    if rep is not None and follows(lambda z: z is rep):
+        out.append(ok("STORE-8", er.qualname, key, ctx.where(er, rep.stmt), "every RegionBlock inside the new sub-graph gets the new region as parent"))
+    else:
+        out.append(bad("STORE-8", er.qualname, key, where, "regions moved into the new sub-graph keep their old parent_region"))
+    # (iv) the entry loop substitutes the region's own name
+    key = "entries re-targeted to the region's name"
+    loops = _rename_loops(er.node)
+    news = {new for _L, _old, new, _lp in loops}
+    olds = {old for _L, old, _new, _lp in loops}
+    if loops and news == {A.unparse(nm)} and olds == {A.unparse(kws["header"])}:
+        out.append(ok("STORE-8", er.qualname, key, where, f"entries rename {A.unparse(kws['header'])} -> {A.unparse(nm)}"))
+    elif not loops:
+        out.append(unresolved("STORE-8", er.qualname, key, where, "no rename loop found for the entries"))
+    else:
+        out.append(bad("STORE-8", er.qualname, key, where, f"entries are renamed {sorted(olds)} -> {sorted(news)}, expected {A.unparse(kws['header'])} -> {A.unparse(nm)}"))
+    return out
+
+
+# ------------------------------------------------------------------ STORE-9
+
+
+@rule("STORE-9", 5, "the edit primitives touch only the given predecessors and the blocks they create; the new block's successors are exactly the given successors")
+def store9(ctx) -> List[Ob]:
+    out: List[Ob] = []
+    scfg_cls = ctx.prog.cls("SCFG")
+    for mname in ("insert_block", "insert_block_and_control_blocks"):
+        fn = scfg_cls.find_method(mname)
+        if fn is None:
+            raise AnalysisError(f"SCFG.{mname} not found")
+        cfg = ctx.cfg(fn)
+        params = [p.arg for p in fn.params]
+        if "predecessors" not in params or "successors" not in params:
+            raise AnalysisError(f"SCFG.{mname}: parameters predecessors / successors not found")
+        # names constructed in this function
+        built: Set[str] = set()
+        ctor_calls = []
+        for c in A.walk_no_nested(fn.node):
+            if isinstance(c, ast.Call):
+                t = ctx.type_of(fn, c.func)
+                if any(m[0] == "type" for m in members(t)):
+                    nmv = kw(c, "name")
+                    if nmv is not None:
+                        built.add(A.unparse(nmv))
+                        ctor_calls.append(c)
+        # keys popped / looked up for writing
+        for c in A.walk_no_nested(fn.node):
+            gp = _graph_pop(c) if isinstance(c, ast.Call) else None
+            if gp is None:
+                continue
+            G, k = gp
+            key = f"pop key {k}"
+            where = ctx.where(fn, c)
+            okk = False
+            if G == "self":
+                kn = c.args[0]
+                if isinstance(kn, ast.Name):
+                    for d in cfg.reaching_defs(c, kn.id):
+                        if d.kind == "for" and A.unparse(d.stmt.iter) == "predecessors":
+                            okk = True
+            if okk:
+                out.append(ok("STORE-9", fn.qualname, key, where, "popped key iterates over the predecessors parameter"))
+            else:
+                out.append(bad("STORE-9", fn.qualname, key, where, f"a block other than a given predecessor is taken out of the graph ({G}.graph.pop({k}))"))
+        for c in method_calls(fn.node, "add_block"):
+            if A.unparse(c.func.value) != "self" or not c.args:
+                continue
+            a = c.args[0]
+            key = "add_block " + A.alpha_key(a)
+            where = ctx.where(fn, c)
+            src = None
+            if isinstance(a, ast.Name):
+                defs = [d for d in cfg.reaching_defs(c, a.id) if d.stmt is not None]
+                kinds = set()
+                for d in defs:
+                    v = d.stmt.value if isinstance(d.stmt, ast.Assign) else None
+                    vv = _innermost_receiver(v) if v is not None else None
+                    if vv is not None and isinstance(vv, ast.Call) and any(vv is cc for cc in ctor_calls):
+                        kinds.add("constructed here")
+                    elif v is not None and (A.names_in(v) & _carrier_names(fn.node, a.id)) or (vv is not None and _graph_pop(vv)):
+                        kinds.add("predecessor carrier")
+                    else:
+                        kinds.add("other")
+                src = kinds
+            elif isinstance(a, ast.Call):
+                src = {"predecessor carrier"} if _graph_pop(_innermost_receiver(a)) else {"other"}
+            if src and src <= {"constructed here", "predecessor carrier"}:
+                out.append(ok("STORE-9", fn.qualname, key, where, f"stores a block that is {' / '.join(sorted(src))}"))
+            else:
+                out.append(bad("STORE-9", fn.qualname, key, where, "stores a block that is neither a given predecessor nor created by this primitive"))
+        # new block's successors
+        for c in ctor_calls:
+            nmv = kw(c, "name")
+            if nmv is not None and A.unparse(nmv) == "new_name":
+                jt = kw(c, "_jump_targets")
+                key = "successors of the inserted block"
+                if jt is not None and A.unparse(jt) == "tuple(successors)":
+                    out.append(ok("STORE-9", fn.qualname, key, ctx.where(fn, c), "_jump_targets=tuple(successors)"))
+                else:
+                    out.append(bad("STORE-9", fn.qualname, key, ctx.where(fn, c), f"the inserted block's successors are {A.unparse(jt) if jt is not None else 'missing'}, not exactly the given successors in order"))
+    return out
